@@ -77,10 +77,32 @@ class ProcGen:
         if x < 0.35:
             return self.render_stmt(self.gen, rng.choice(
                 ['select', 'insert', 'update', 'delete'])) + ';'
-        if x < 0.5:
+        if x < 0.42:
             return self.join([self.kw('set'), self.name(), '=',
                               rng.choice(['1', "'end;'", "'begin'",
                                           self.name() + ' + 1'])]) + ';'
+        if x < 0.46:
+            # function calls whose names are block keywords elsewhere: a
+            # word directly before ( is a name for the lexer
+            f = rng.choice(['if', 'IF', 'If', 'left', 'replace', 'coalesce'])
+            call = '%s(%s, %s, %s)' % (f, self.cond(), rng.choice(
+                ["'p'", '1', self.name()]), rng.choice(["'f'", '0']))
+            if rng.random() < 0.5:
+                return self.join([self.kw('set'), self.name(), '=',
+                                  call]) + ';'
+            return self.join([self.kw('select'), call, self.kw('into'),
+                              self.name()]) + ';'
+        if x < 0.5:
+            # qualified names whose last part is spelled like a block keyword
+            # (a word behind a period is a name for the lexer)
+            q = '%s.%s' % (rng.choice(['NEW', 'OLD', 'new', 'r', 't1']),
+                           rng.choice(['end', 'begin', 'loop', 'if', 'END',
+                                       'declare', 'while', 'for', 'Begin']))
+            if rng.random() < 0.5:
+                return self.join([self.kw('set'), self.name(), '=', q]) + ';'
+            return self.join([self.kw('select'), q, self.kw('into'),
+                              self.name(), self.kw('from'), self.name(),
+                              self.kw('where'), q, '=', '1']) + ';'
         if x < 0.6:
             return '%s := %s;' % (self.name(), rng.choice(['1', 'a + b',
                                                            "'x;y'"]))
@@ -199,10 +221,29 @@ class ProcGen:
         head.append(self.kw(what))
         head.append(self.name())
         if what == 'trigger':
-            head += [self.kw(rng.choice(['before', 'after'])),
-                     self.kw(rng.choice(['insert', 'update', 'delete'])),
-                     self.kw('on'), self.name(), self.kw('for'),
-                     self.kw('each'), self.kw('row')]
+            ev = self.kw(rng.choice(['insert', 'update', 'delete']))
+            form = rng.random()
+            if form < 0.6:
+                head += [self.kw(rng.choice(['before', 'after'])), ev,
+                         self.kw('on'), self.name(), self.kw('for'),
+                         self.kw('each'), self.kw('row')]
+            elif form < 0.7:
+                head += [self.kw('instead'), self.kw('of'), ev, self.kw('on'),
+                         self.name(), self.kw('for'), self.kw('each'),
+                         self.kw('row')]
+            elif form < 0.85:
+                # Transact-SQL header: ON table FOR|AFTER event[, event] AS
+                head += [self.kw('on'), self.name(),
+                         self.kw(rng.choice(['for', 'after'])), ev]
+                if rng.random() < 0.4:
+                    head += [',', self.kw(rng.choice(['insert', 'update',
+                                                      'delete']))]
+                head += [self.kw('as')]
+            else:
+                head += [self.kw(rng.choice(['before', 'after'])), ev,
+                         self.kw('or'), self.kw('update'), self.kw('on'),
+                         self.name(), self.kw('for'), self.kw('each'),
+                         self.kw('row')]
         else:
             params = ', '.join('%s %s' % (self.name(), rng.choice(
                 ['int', 'varchar(20)', 'text']))
@@ -210,6 +251,12 @@ class ProcGen:
             head[-1] = head[-1] + '(' + params + ')'
             if what == 'function':
                 head += [self.kw('returns'), rng.choice(['int', 'text'])]
+                if rng.random() < 0.2:
+                    head += [self.kw(rng.choice(['deterministic',
+                                                 'language sql', 'as',
+                                                 'is']))]
+            elif rng.random() < 0.25:
+                head += [self.kw(rng.choice(['as', 'is']))]
         parts = list(head)
         if not clean and rng.random() < 0.2:
             trig.add('declare-section')
